@@ -262,7 +262,7 @@ def execute(case):
             target = cand[st[1] % len(cand)]
             uid += 1
             n_in = len(target.ins) + (st[2] % 2)
-            n_out = max(1, len(target.outs))
+            n_out = max(1, len(target.outs)) + (st[1] // 7) % 3      # extra implementation outputs stay unconnected (their logic is swept)
             from .c09 import impl_text
             text, _nu = impl_text(st[2], n_in, n_out, f'{k}u{uid}')
             with contextlib.redirect_stdout(io.StringIO()):
